@@ -801,7 +801,7 @@ def run(ctx):
             ctx.bad(R_adp, "adpcm|shape", ad.where, "decode loop / per-byte decision not recognised", "shape changed")
 
     # PKWare: the literal mode the compressor emits is one the decoder accepts; the decoder turns the unsupported mode into an error
-    R_pk = ctx.rule("C03.pkware-mode-supported-by-decoder", "pkware::compress emits the binary literal mode and pkware::decompress rejects a mode byte of 1 (ASCII, unimplemented in the exploder) with an error before exploding", floor=2)
+    R_pk = ctx.rule("C03.pkware-mode-supported-by-decoder", "pkware::compress emits the binary literal mode; pkware::decompress rejects a mode byte of 1 (ASCII, unimplemented in the exploder) and a dictionary-size byte outside 4..=6 with an error before exploding", floor=3)
     pkc = fns.get(C + "algorithms::pkware::compress")
     pkd = fns.get(C + "algorithms::pkware::decompress")
     if pkc is None or pkd is None:
@@ -826,6 +826,22 @@ def run(ctx):
             ctx.ok(R_pk, {"compress_mode": sorted(modes)})
         else:
             ctx.bad(R_pk, "pkware|mode", pkc.where, "compress emits literal mode %s" % (sorted(modes) or "?"), "the exploder behind decompress() implements binary mode only: the codec's own output panics (unimplemented!) when read back")
+        # ... and the dictionary-size byte (stream byte 1): the exploder uses it as a shift count and as a window reach, so a failing guard
+        # that reads byte 1 (data[1] / data.get(1)) and mentions a range or comparison with small constants precedes the first explode call
+        dict_guard = False
+        for n in hirq.find(pkd.hir["body"], "if"):
+            if n["ln"] >= first_explode or not any(x.get("k") == "ret" and "Err" in hirq.render(x.get("e")) for x in hirq.walk(n["then"])):
+                continue
+            cnodes = list(hirq.walk(n["c"]))
+            reads1 = any((x.get("k") == "index" and hirq.const_int(x["i"]) == 1) or (x.get("k") == "mcall" and x["m"] == "get" and x.get("args") and hirq.const_int(x["args"][0]) == 1) for x in cnodes)
+            ks = {hirq.const_int(x) for x in cnodes if x.get("k") == "lit"} - {None}
+            if reads1 and ({4, 6} <= ks or {3, 7} <= ks or {6} <= ks):
+                dict_guard = True
+        if dict_guard:
+            ctx.ok(R_pk, {"decoder_validates_dictionary_bits": True})
+        else:
+            ctx.bad(R_pk, "pkware|dict-bits-guard", pkd.where, "decompress does not validate the dictionary-size byte (stream byte 1, legal values 4..=6) before calling the exploder",
+                    "the exploder takes that byte verbatim as a shift count and as the reach of a back-reference: values above 6 panic inside the dependency (subtraction overflow / shift overflow) — a 6-byte stream aborts Archive::read_file")
         if guard:
             ctx.ok(R_pk, {"decoder_rejects_ascii_mode": True})
         else:
